@@ -120,34 +120,4 @@ Proof.
   { unfold get_conn, set_conn. cbn [conns]. apply nth_error_upd_eq. eapply nth_error_lt; eauto. }
   cbn [cccd client_mtu encrypted pairing nq].
   repeat split; auto.
-  - rewrite A. apply written_value_bits; auto.
-  - intros j N. unfold get_conn, set_conn. cbn [conns]. apply nth_error_upd_neq. auto.
-Qed.
-
-(* reading the CCCD attribute gives the two bits and a zero byte *)
-Theorem cccd_read_exact c st cid k s ch cci off maxlen :
-  get_conn st cid = Some k ->
-  security_check (char_requires_encryption c s ch) (encrypted k) (pairing k) = Success ->
-  access_read c st cid (ACccd s ch cci) 0 off maxlen
-  = Some (let '(r, d) := mem_read [cccd_get (cccd k) (cccd_position c cci); 0] off maxlen in (st, r, d)).
-Proof.
-  intros G Sec. unfold access_read. rewrite G. cbn [fst snd]. rewrite Sec.
-  destruct (mem_read _ _ _). reflexivity.
-Qed.
-
-(* ------------------------------------------------------------------ the subscription callback *)
-(* the callback is invoked during a CCCD write iff the stored two bits change *)
-Theorem callback_iff_changed c st cid k cci off data st' r :
-  get_conn st cid = Some k ->
-  cccd_write c st cid k cci off data = (st', r) ->
-  forall k', get_conn st' cid = Some k' ->
-  cccd_write_cb c k cci off data = (if cccd_get (cccd k') (cccd_position c cci) =? cccd_get (cccd k) (cccd_position c cci) then 0 else 1).
-Proof.
-  intros G. unfold cccd_write, cccd_write_cb.
-  destruct (2 <? off); [intros H; inv H; intros k' G'; rewrite G in G'; inv G'; rewrite N.eqb_refl; reflexivity|].
-  destruct (2 <? len data + off); [intros H; inv H; intros k' G'; rewrite G in G'; inv G'; rewrite N.eqb_refl; reflexivity|].
-  destruct (off =? 0); [|intros H; inv H; intros k' G'; rewrite G in G'; inv G'; rewrite N.eqb_refl; reflexivity].
-  intros H; inv H. intros k' G'.
-  unfold get_conn, set_conn in G'. cbn [conns] in G'.
-  rewrite nth_error_upd_eq in G' by (eapply nth_error_lt; eauto). inv G'. cbn [cccd]. reflexivity.
-Qed.
+Show.
